@@ -32,28 +32,32 @@ theorem askType_eq (cache : List Rec) (h : History) (now : Int) (qu : Bool) (ty 
     askType lower cache h now qu ty =
       if (!qu && h.suppresses lower { name := ty, type := 12, class_ := 1, unique := qu } now (knownAnswers lower cache ty 12 1 now)) = true
       then (none, h)
-      else (some { q := { name := ty, type := 12, class_ := 1, unique := qu }, known := knownAnswers lower cache ty 12 1 now },
+      else (some { q := { name := ty, type := 12, class_ := 1, unique := qu }, known := (knownAnswers lower cache ty 12 1 now), wire := (knownAnswers lower cache ty 12 1 now).filterMap (wireAnswerAt (browserAnswerTime now)) },
             if (!qu) = true then h.add lower { name := ty, type := 12, class_ := 1, unique := qu } now (knownAnswers lower cache ty 12 1 now) else h) := rfl
 
 theorem addQuestion_eq (cache : List Rec) (h : History) (now : Int) (qu : Bool) (name : String) (type cls : Nat) (skip : Bool) :
     addQuestion lower cache h now qu name type cls skip =
       if (skip && !(knownAnswers lower cache name type cls now).isEmpty) = true then (none, h)
-      else if qu = true then (some { q := { name, type, class_ := cls, unique := qu }, known := knownAnswers lower cache name type cls now }, h)
+      else if qu = true then (some { q := { name, type, class_ := cls, unique := qu }, known := (knownAnswers lower cache name type cls now), wire := (knownAnswers lower cache name type cls now).filterMap (wireAnswerAt (lookupAnswerTime now)) }, h)
       else if h.suppresses lower { name, type, class_ := cls, unique := qu } now (knownAnswers lower cache name type cls now) = true then (none, h)
-      else (some { q := { name, type, class_ := cls, unique := qu }, known := knownAnswers lower cache name type cls now },
+      else (some { q := { name, type, class_ := cls, unique := qu }, known := (knownAnswers lower cache name type cls now), wire := (knownAnswers lower cache name type cls now).filterMap (wireAnswerAt (lookupAnswerTime now)) },
             h.add lower { name, type, class_ := cls, unique := qu } now (knownAnswers lower cache name type cls now)) := rfl
 
-/-- every question a browser query emits is the PTR/IN question of the type with the QU bit as computed, and
-carries exactly `knownAnswers` -/
+/-- every question a browser query emits is the PTR/IN question of the type with the QU bit as computed, carries exactly
+`knownAnswers`, and **each known answer is put on the wire with its remaining TTL** `⌊(created + 1000·ttl − now)/1000⌋`: the time
+handed to `add_answer_at_time` (a translated leaf chain, `GenFacts.browser_answer_time_eq`) is the query time, the encoder's
+accept/TTL-field decisions are the translated `answer_accepted` / `ttl_field` leaves (`now ≠ 0`: the clock is never 0) -/
 theorem C13_browser_question (cache : List Rec) (h : History) (now : Int) (qu : Bool) (ty : String) (o : QOut)
     (ho : (askType lower cache h now qu ty).1 = some o) :
-    o.q = { name := ty, type := 12, class_ := 1, unique := qu } ∧ o.known = knownAnswers lower cache ty 12 1 now := by
+    o.q = { name := ty, type := 12, class_ := 1, unique := qu } ∧ o.known = knownAnswers lower cache ty 12 1 now ∧
+    (now ≠ 0 → o.wire = o.known.map (fun r => (r, ((r.created + 1000 * r.ttl - now) / 1000).toNat))) := by
   rw [askType_eq] at ho
   split at ho
   · cases ho
   · have : some _ = some o := ho
     simp only [Option.some.injEq] at this
-    rw [← this]; exact ⟨rfl, rfl⟩
+    rw [← this]
+    exact ⟨rfl, rfl, fun hn => wire_of_known lower cache ty 12 1 now _ (browser_answer_time_eq now) hn⟩
 
 /-- **Suppression, exactly.**  A browser question is omitted iff it is QM and this instance's history holds the
 same question, asked (or heard as responder) at most 999 ms ago, with a known-answer list of which every
@@ -103,23 +107,27 @@ theorem C13_lookup_suppress_iff (cache : List Rec) (h : History) (now : Int) (qu
 
 theorem C13_lookup_question (cache : List Rec) (h : History) (now : Int) (qu : Bool) (name : String) (type cls : Nat)
     (skip : Bool) (o : QOut) (ho : (addQuestion lower cache h now qu name type cls skip).1 = some o) :
-    o.q = { name, type, class_ := cls, unique := qu } ∧ o.known = knownAnswers lower cache name type cls now := by
+    o.q = { name, type, class_ := cls, unique := qu } ∧ o.known = knownAnswers lower cache name type cls now ∧
+    (now ≠ 0 → o.wire = o.known.map (fun r => (r, ((r.created + 1000 * r.ttl - now) / 1000).toNat))) := by
   rw [addQuestion_eq] at ho
   split at ho
   · cases ho
   · split at ho
     · have : some _ = some o := ho
       simp only [Option.some.injEq] at this
-      rw [← this]; exact ⟨rfl, rfl⟩
+      rw [← this]
+      exact ⟨rfl, rfl, fun hn => wire_of_known lower cache name type cls now _ (lookup_answer_time_eq now) hn⟩
     · split at ho
       · cases ho
       · have : some _ = some o := ho
         simp only [Option.some.injEq] at this
-        rw [← this]; exact ⟨rfl, rfl⟩
+        rw [← this]
+        exact ⟨rfl, rfl, fun hn => wire_of_known lower cache name type cls now _ (lookup_answer_time_eq now) hn⟩
 
 /-- **History update.**  Asking a QM question records `(now, known answers)` under that question; a QU question or
-a suppressed one leaves the history untouched; a responder that hears a QM question it can answer records it with
-the known answers of the query, a QU question is not recorded. -/
+a suppressed one leaves the history untouched; a responder that hears a QM question it can answer
+(`canAnswer = true`: it has an answer strategy, i.e. is authoritative) records it with the known answers of the query; a QU
+question, or one it cannot answer, is not recorded. -/
 theorem C13_history_upd (cache : List Rec) (h : History) (now : Int) (ty : String) :
     ((askType lower cache h now true ty).2 = h) ∧
     ((askType lower cache h now false ty).1 = none → (askType lower cache h now false ty).2 = h) ∧
@@ -127,9 +135,10 @@ theorem C13_history_upd (cache : List Rec) (h : History) (now : Int) (ty : Strin
       (askType lower cache h now false ty).2.get lower { name := ty, type := 12, class_ := 1, unique := false }
         = some { q := { name := ty, type := 12, class_ := 1, unique := false }, time := now,
                  known := knownAnswers lower cache ty 12 1 now }) ∧
-    (∀ q known, q.unique = false → (responderHears lower h q now known).get lower q = some { q, time := now, known }) ∧
-    (∀ q known, q.unique = true → responderHears lower h q now known = h) := by
-  refine ⟨?_, ?_, ?_, ?_, ?_⟩
+    (∀ q known, q.unique = false → (responderHears lower true h q now known).get lower q = some { q, time := now, known }) ∧
+    (∀ q known, q.unique = true → responderHears lower true h q now known = h) ∧
+    (∀ q known, responderHears lower false h q now known = h) := by
+  refine ⟨?_, ?_, ?_, ?_, ?_, fun q known => by simp [responderHears]⟩
   · rw [askType_eq]; simp
   · rw [askType_eq]
     by_cases hs : h.suppresses lower { name := ty, type := 12, class_ := 1, unique := false } now (knownAnswers lower cache ty 12 1 now) = true
@@ -142,7 +151,7 @@ theorem C13_history_upd (cache : List Rec) (h : History) (now : Int) (ty : Strin
       simp only [Bool.not_false, Bool.true_and, hs, if_false, if_true, Bool.false_eq_true]
       exact get_add lower h _ now _
   · intro q known hq
-    simp only [responderHears, hq, Bool.not_false, if_true]
+    simp only [responderHears, hq, Bool.not_false, Bool.and_self, if_true]
     exact get_add lower h q now known
   · intro q known hq
     simp [responderHears, hq]
@@ -165,9 +174,37 @@ suppressed every answer the responder had. -/
 theorem C13_heard_suppressed (cache' : List Rec) (h : History) (now now' : Int) (ty : String) (known : List Rec)
     (hgap : now' - now ≤ 999)
     (hcov : ∀ r ∈ known, ∃ k ∈ knownAnswers lower cache' ty 12 1 now', r.beq lower k = true) :
-    (askType lower cache' (responderHears lower h { name := ty, type := 12, class_ := 1, unique := false } now known) now' false ty).1 = none := by
+    (askType lower cache' (responderHears lower true h { name := ty, type := 12, class_ := 1, unique := false } now known) now' false ty).1 = none := by
   rw [C13_suppress_iff]
   exact ⟨rfl, _, (C13_history_upd lower [] h now ty).2.2.2.1 _ known rfl, hgap, hcov⟩
+
+/-- **The clean-up tick is invisible.**  `AsyncEngine._async_cache_cleanup` calls `question_history.async_expire(now)`
+(`History.cleanupTick`; the call and its argument are a translated leaf), which deletes entries older
+than 999 ms; for a history that is a dict (`History.Keyed`: one entry per question — kept by `add` and `expire`, true of the empty
+history) expiring at any `t ≤ now` changes no later decision of `askType`: "asked at T, clean-up at T+500, asked at T+900 ⇒
+suppressed" composes from `C13_repeat_suppressed` and this. -/
+theorem C13_cleanup_invisible (cache : List Rec) (h : History) (t now : Int) (qu : Bool) (ty : String)
+    (hk : History.Keyed lower h) (ht : t ≤ now) :
+    (askType lower cache (h.expire t) now qu ty).1 = (askType lower cache h now qu ty).1 ∧
+    History.Keyed lower (h.expire t) ∧
+    (∀ q now' known, History.Keyed lower (h.add lower q now' known)) ∧ History.Keyed lower [] ∧
+    h.cleanupTick t = h.expire t := by
+  refine ⟨?_, keyed_expire lower hk t, fun q now' known => keyed_add lower hk q now' known, by simp [History.Keyed],
+    by unfold History.cleanupTick; rw [cleanup_expire_time_eq]⟩
+  rw [askType_eq, askType_eq, suppresses_expire lower hk t now ht]
+  split <;> rfl
+
+/-- every generated request — also one whose questions were all suppressed, so that nothing was transmitted — clears
+`first_request`: "first QU, later QM" counts generated requests; the oracle counts transmitted datagrams (with a forced QM first
+request that is silent, the first *transmitted* query is the second request; both readings agree that it is QM) -/
+theorem C13_first_cleared (l : Loop) (forced : Option Bool) (now : Int) (d : Nat) (qu : Bool) (l1 : Loop)
+    (h : l.iter forced now d = (.ask qu, l1)) : l1.first = false ∧ qu = iterQu forced l.first := by
+  rcases iter_cases l forced now d with ⟨h1, _⟩ | ⟨h1, _⟩ | ⟨_, h1⟩
+  · rw [h1] at h; cases h
+  · rw [h1] at h; cases h
+  · rw [h1] at h
+    simp only [Prod.mk.injEq, Iter.ask.injEq] at h
+    rw [← h.2]; exact ⟨rfl, h.1.symm⟩
 
 /-- **Lookup progression.**  The first request of a lookup is QU unless a type is forced (then the forced type); every
 later one is QM. -/
@@ -272,6 +309,23 @@ example :
     (askType id [r] [{ q, time := 1000, known := [r] }] 1999 false "_x._tcp.local.").1.isNone = true ∧
     (askType id [r] [{ q, time := 1000, known := [r] }] 2000 false "_x._tcp.local.").1.isSome = true ∧
     (askType id [] [{ q, time := 1000, known := [r] }] 1999 false "_x._tcp.local.").1.isSome = true := by
+  decide
+
+/-- lookup side: with a fresh SRV cached the SRV question is not asked; with a stale one it is asked, with an empty known list;
+known answers go out with their remaining TTL (4500 s record, 1000 s old: 3500) -/
+example :
+    let srv (created : Int) : Rec := { name := "d._x._tcp.local.", type := 33, class_ := 1, unique := true, ttl := 120, created, rdata := .srv 0 0 80 "h.local." }
+    let a : Rec := { name := "h.local.", type := 1, class_ := 1, unique := true, ttl := 4500, created := 1000, rdata := .addr [10, 0, 0, 1] none }
+    (addQuestion id [srv 1000000] [] 1001000 false "d._x._tcp.local." 33 1 true).1.isNone = true ∧
+    ((addQuestion id [srv 900000] [] 1001000 false "d._x._tcp.local." 33 1 true).1.map (·.known.length)) = some 0 ∧
+    ((addQuestion id [a] [] 1001000 false "h.local." 1 1 false).1.map (fun o => o.wire.map (·.2))) = some [3500] := by
+  decide
+
+/-- the hypotheses of `C13_heard_suppressed` are satisfiable: the peer lists one record we hold fresh -/
+example :
+    let r : Rec := { name := "_x._tcp.local.", type := 12, class_ := 1, unique := false, ttl := 4500, created := 0, rdata := .ptr "a._x._tcp.local." }
+    (1500 : Int) - 1000 ≤ 999 ∧ (∀ x ∈ [r], ∃ k ∈ knownAnswers id [r] "_x._tcp.local." 12 1 1500, x.beq id k = true) ∧
+    (askType id [r] (responderHears id true [] { name := "_x._tcp.local.", type := 12, class_ := 1, unique := false } 1000 [r]) 1500 false "_x._tcp.local.").1.isNone = true := by
   decide
 
 example : Loop.asks none (Loop.init 0 3000) [(0, 20), (220, 20), (440, 20), (1459, 120)] = [(0, true), (220, false), (440, false), (1459, false)] := by
